@@ -184,6 +184,67 @@ func genC12(t *rapid.T) c12Case {
 		c.Flags = rapid.SliceOfN(rapid.Byte(), 0, 3).Draw(t, "flags")
 		return c
 	}
+	switch rapid.IntRange(0, 11).Draw(t, "directed") {
+	case 0:
+		// one path through a tree of ANY size up to the cap (and a little beyond): every sibling is a pruned
+		// subtree, i.e. just a hash, so the message stays small; sizes around powers of two and around the cap
+		n := rapid.Uint64Range(1, refTxnCap()+2).Draw(t, "bign")
+		if rapid.IntRange(0, 2).Draw(t, "edge") > 0 {
+			base := []uint64{1 << uint(rapid.IntRange(1, 21).Draw(t, "pow")), refTxnCap()}[rapid.IntRange(0, 1).Draw(t, "which")]
+			n = base + uint64(rapid.IntRange(-3, 3).Draw(t, "delta"))
+			if n < 1 || n > refTxnCap()+2 {
+				n = refTxnCap()
+			}
+		}
+		pos := rapid.Uint64Range(0, n-1).Draw(t, "pos")
+		if rapid.IntRange(0, 2).Draw(t, "posedge") == 0 {
+			pos = []uint64{0, n - 1, n / 2}[rapid.IntRange(0, 2).Draw(t, "pe")]
+		}
+		height := uint(0)
+		for (n+(1<<height)-1)>>height > 1 {
+			height++
+		}
+		c := c12Case{Count: uint32(n), Tag: "synthetic-path"}
+		var bitsOut []bool
+		var walk func(h uint, p uint64)
+		walk = func(h uint, p uint64) {
+			onPath := pos>>h == p
+			bitsOut = append(bitsOut, onPath)
+			if h == 0 || !onPath {
+				c.Hashes = append(c.Hashes, HexBytes{byte(h + 1), byte(p), byte(p >> 8), byte(p >> 16), 0x5c})
+				return
+			}
+			walk(h-1, 2*p)
+			if 2*p+1 < (n+(1<<(h-1))-1)>>(h-1) {
+				walk(h-1, 2*p+1)
+			}
+		}
+		walk(height, 0)
+		c.Flags = packFlagBits(bitsOut)
+		if rapid.IntRange(0, 3).Draw(t, "levelshort") == 0 && len(c.Hashes) > 2 {
+			// the same path presented one level short (the last two entries merged into one hash)
+			c.Hashes = c.Hashes[:len(c.Hashes)-1]
+			c.Tag = "synthetic-path-short"
+		}
+		return c
+	case 1:
+		// CVE-2012-2459 one level up: the right half of the block repeats the left half; the honest builder then
+		// expands one copy and prunes the other to the single hash that the expanded copy computes to
+		half := rapid.SampledFrom([]int{1, 2, 4, 8}).Draw(t, "half")
+		leaves := make([]h32, 2*half)
+		for i := 0; i < half; i++ {
+			leaves[i] = hashPair(h32{byte(i), 0x99}, h32{})
+			leaves[half+i] = leaves[i]
+		}
+		matched := make([]bool, 2*half)
+		matched[rapid.IntRange(0, half-1).Draw(t, "m")+half*rapid.IntRange(0, 1).Draw(t, "side")] = true
+		hs, bits := refPMTBuild(leaves, matched)
+		c := c12Case{Count: uint32(2 * half), Flags: packFlagBits(bits), Tag: "repeated-half"}
+		for _, h := range hs {
+			c.Hashes = append(c.Hashes, append(HexBytes{}, h[:]...))
+		}
+		return c
+	}
 	count, hs, flags := honestProof(t)
 	c := c12Case{Count: count, Flags: flags}
 	for _, h := range hs {
@@ -239,8 +300,11 @@ func genC12(t *rapid.T) c12Case {
 			if len(c.Flags) > 0 {
 				c.Flags = c.Flags[:len(c.Flags)-1]
 			}
-		case 7: // extend flags by a whole byte
+		case 7: // extend flags by a whole byte, or by many
 			c.Flags = append(c.Flags, rapid.SampledFrom([]byte{0, 0, 1, 0xff}).Draw(t, "eb"))
+			if rapid.IntRange(0, 2).Draw(t, "many") == 0 {
+				c.Flags = append(c.Flags, make([]byte, rapid.SampledFrom([]int{1, 2, 30, 31, 32, 33, 63, 64, 95, 96, 255, 256, 1000}).Draw(t, "surplus"))...)
+			}
 		case 8: // set padding bits in the last byte
 			if len(c.Flags) > 0 {
 				c.Flags[len(c.Flags)-1] |= byte(rapid.IntRange(1, 255).Draw(t, "pad")) & 0xf0
